@@ -93,3 +93,45 @@ class IfThenElseList(Contract):
         d["F.false_branch_list_unchanged"] = f is self._f and f[2] is self._finner and same(f, self._fcopy)
         d["F.result_is_new_list"] = r is not t and r is not f and r[2] is not t[2] and r[2] is not f[2]
         return d
+
+
+@register
+class IfThenElseMixedKinds(Contract):
+    """if_then_else(cond, t, f) where the two branches are secrets of DIFFERENT kinds (boolean flag, integer,
+    fixed-point number): the result represents the NUMBER of the selected branch (a branch that has to change type to
+    be combined with the other one is converted, not rescaled twice or left unscaled), for both condition values."""
+    name = "pysnark.branching:if_then_else#mixed_kinds"
+    vprops = ("C05", "C09", "C14")
+    sprops = eprops = ()
+    tprops = ()
+    skip_facets = "TN"
+    guard_relevant = False
+    raises_unspecified = True
+    modules = ("pysnark.runtime", "pysnark.boolean", "pysnark.fixedpoint", "pysnark.branching")
+
+    KINDS = [("fxp", "bool"), ("bool", "fxp"), ("fxp", "int"), ("int", "fxp"), ("bool", "int"), ("int", "bool"), ("fxp", "fxp"), ("bool", "bool")]
+
+    def configs(self, tier):
+        return [dict(mode="plain", t=t, f=f, res=3) for t, f in self.KINDS]
+
+    def setup(self, c, cfg):
+        apply_mode(c, cfg["mode"], bitlength=6)
+        c.w.modules["pysnark.fixedpoint"].resolution = cfg["res"]
+        mk = {"bool": lambda nm: c.operand_bool(nm), "int": lambda nm: c.operand(nm), "fxp": lambda nm: c.mk_fxp(c.operand(nm))}
+        return c.w.modules["pysnark.branching"].if_then_else, (c.operand_bool("c"), mk[cfg["t"]]("t"), mk[cfg["f"]]("f")), {}
+
+    def use_stub(self, c, *a):
+        return False
+
+    def post(self, c, r, cond, t, f):
+        R = 1 << c.cfg["res"]
+        number = lambda o: (c.v(o), R) if isinstance(o, c.LinCombFxp) else (c.v(o), 1)
+        ok = hasattr(r, "lc")
+        d = {"V.secret_result": ok}
+        if ok:
+            rn, rd = number(r)
+            tn, td = number(t)
+            fn_, fd = number(f)
+            d["V.selected_number"] = If(c.v(cond) == 1, rn * td == tn * rd, rn * fd == fn_ * rd)
+            d["V.inv"] = c.inv(r)
+        return d
